@@ -1,18 +1,18 @@
-\* generated by mkaggcfg.py - edge cover
+\* generated by mkaggcfg.py - edge cover, aggchain-prover flow
 CONSTANTS
   MaxBlocks = 3
   MaxBridges = 1
   MaxCerts = 3
   MaxSteps = 40
-  RetryImm = FALSE
+  RetryImm = TRUE
   MaxCertBlocks = 0
   CallFailures = FALSE
-  Crashes = {"before_submit", "after_submit", "after_store"}
+  Crashes = {}
   StoreFaults = FALSE
-  LoseDB = TRUE
-  HeaderHasPrev = FALSE
+  LoseDB = FALSE
+  HeaderHasPrev = TRUE
   FixedF4 = "v2"
-  Mode = "pp"
+  Mode = "fep"
 INIT Init
 NEXT Next
 VIEW view
